@@ -176,8 +176,9 @@ CHECKS["C16"] = dict(
          "up, re-establishes the control connection (failing over to another host) and reports zero outage; with every node down the outage grows and it "
          "returns to zero afterwards; reconnect delays stay within [min(base,max), max], restart from the attempt-0 delay after a successful connect, and "
          "every row of the Backoff table (bases up to 12 h, attempts up to 70) holds in the real calculator",
-    note="Time is abstracted to 'converged within a bounded wait' (8 s per fault, refresh window shortened to 100 ms by a verif hook); the readiness HTTP "
-         "endpoint itself is exercised by C20's binary runs only indirectly; heartbeat silence is exercised in the thorough tier only.",
+    note="Time is abstracted to 'converged within a bounded wait' (8 s per fault, refresh window shortened to 100 ms by a verif hook); the readiness and "
+         "liveness HTTP endpoints of the real binary are polled along the behaviours of Readiness.tla (ticks of 1 s, sampled mid-tick); heartbeat "
+         "silence is exercised in the thorough tier only.",
     design="§6 C16")
 
 CHECKS["C03"] = dict(
